@@ -754,6 +754,30 @@ def same(ctx, ops, mline, iline):
     return True
 
 
+
+def cpu_number_marker(ops, verdict):
+    """Classifier detail for the open finding C13-open-after-app-cpu-number: the marker is added to the
+    signature only if the application set cpu.number = V (last such set before the last open) and the one
+    unexpected CPU directory is exactly cpu.(V mod 2^32), i.e. the CPUs of the new file were numbered after
+    the application's count."""
+    if "after re-open" not in verdict:
+        return ""
+    key = "cpu.number".encode().hex()
+    last_open = max([k for k, o in enumerate(ops) if o.startswith("O:")] or [-1])
+    vals = [o.split(":")[4] for o in ops[:last_open + 1]
+            if o.startswith("S:") and len(o.split(":")) >= 5 and o.split(":")[2] == key and o.split(":")[3] == "n"]
+    if not vals:
+        return ""
+    try:
+        v = int(vals[-1], 16) & 0xffffffff
+    except ValueError:
+        return ""
+    want = "cpu.".encode().hex()[:-2] + "." + str(v).encode().hex()
+    m = core.re.search(r"unexpected ([0-9a-f.=d,\- ]*)", verdict)
+    if v != 0 and m and (want + "=") in m.group(1) and "missing 637075.30=" in verdict:
+        return " [CPUs numbered after the application-set cpu.number]"
+    return ""
+
 def spec_verdicts(run, ctx, cases, impl):
     lines = ctx["head"] + [" ".join(c) + " || " + (impl[i] if i < len(impl) else "") for i, c in enumerate(cases)]
     res = core.run_model("attr-spec", run.casefile("attr-spec.txt", lines))[len(ctx["head"]):]
@@ -780,7 +804,7 @@ def compare(run, ctx, cases):
     todo = []
     for i in bad:
         # a case that shows exactly a recorded finding (and nothing else) is reported without shrinking
-        sig = "attr spec " + verd[i] if i < len(verd) and verd[i] != "ok" else None
+        sig = "attr spec " + verd[i] + cpu_number_marker(cases[i], verd[i]) if i < len(verd) and verd[i] != "ok" else None
         if sig and i not in crashes and same(ctx, cases[i], model[i] if i < len(model) else "", impl[i]) and \
                 any(core.re.search(k["match"], sig) for k in run.known if k.get("status", "open") == "open"):
             run.violation("spec", "known finding", {"case": " ".join(cases[i])}, found_input=True, signature=sig)
@@ -850,7 +874,7 @@ def compare(run, ctx, cases):
                           signature="attr reopen-hang " + im[0].split("HANG-OR-CRASH")[1][:8])
         elif sv != "ok":
             run.violation("spec", "the library contradicts the dictionary spec: %s; %s" % (sv, where), replay,
-                          found_input=True, signature="attr spec " + sv)
+                          found_input=True, signature="attr spec " + sv + cpu_number_marker(small, sv))
         else:
             run.violation("tie", "correspondence attr (model Attr/AttrTree vs attr.c) broken on " + where, replay,
                           found_input=False, signature="attr tie")
